@@ -73,6 +73,23 @@ def run(tier, seed):
     for i in range(300 if quick else 5000):
         d = jsonmut.mutate(base, rng)
         jsonmut.compare_auth_dict(B, pol, d, rng.random() < 0.3)
+    # 5. key histories for one credential id: the key the RP supplies NOW decides, whatever was supplied before
+    for kind in (kinds[::4] if quick else kinds):
+        cid = b"rotating-" + kind.encode()
+        def scn(**kw):
+            s = authcat.Scn(kind)
+            s.cred_id = cid
+            for k, v in kw.items():
+                setattr(s, k, v)
+            return s
+        steps = [("genuine, first key stored", scn(), "accept"),
+                 ("signed by the first key, RP now stores a second key", scn(stored_key_kind=kind), "reject"),
+                 ("signed by the second key, RP stores the second key", scn(signer_kind=kind, signer_slot=authcat.ALT_CRED_SLOT, stored_key_kind=kind), "accept"),
+                 ("signed by the second key, RP stores the first key again", scn(signer_kind=kind, signer_slot=authcat.ALT_CRED_SLOT), "reject"),
+                 ("genuine, first key stored (again)", scn(), "accept")]
+        for what, s, exp in steps:
+            pol, a = s.build()
+            B.run_case(pol, a, "record", exp, f"key-history: {what}")
     B.close()
     chk.notes.append({"oracle_queries": B.O.counts})
     return fw.finish(chk, ob, br, TRUSTED,
